@@ -1,4 +1,5 @@
 """C09 — concurrent cache use is race-free and behaves like some sequential order."""
+import os
 import verif
 from verif import Unit, rc_params
 
@@ -14,7 +15,7 @@ LEVEL_TEXT = ("Thread programs, start delays and per-operation spin counts are g
               "(replace on store, T u {k} triggers, LRU eviction under a limit) returns every observed fetch / stats result; values carry "
               "(store id, key, writer, length) and a position-dependent filler so torn or foreign values cannot be explained.")
 LEVEL_NOTE = ("Schedules are sampled, not enumerated or controlled: an atomicity bug that is not a data race and needs a rare interleaving can "
-              "be missed. A failing case is re-executed (up to 6x while shrinking, up to 150x on replay) because reproduction depends on the schedule. "
+              "be missed. A failing case is re-executed (up to 6x while shrinking, up to 300x on replay) because reproduction depends on the schedule. "
               "Watchdog hits (hung child) are inconclusive, never violations. Only the thread-shared in-memory cache is covered.")
 DESIGN_REF = "3/C09"
 RULE = ("case = (limit, sequential prelude, thread programs of store/fetch/rise/remove/clear/stats, start delays, spin counts); non-trivial: the "
@@ -43,12 +44,18 @@ def units(bins, tier, seed):
             us.append(Unit("c09_conc_%s.rc%d" % (cfg, i), [bins["c09_conc_" + cfg]],
                            env={"RC_PARAMS": rc_params(seed * 1000 + (0 if cfg == "tsan" else 500) + i, cases, 100)},
                            group=cfg, timeout=3000))
+        # the minimal shapes in which the sensitivity mutations were caught (replays/C09/reg-*.case), a few dozen executions each
+        us.append(Unit("c09_conc_%s.reg" % cfg, [bins["c09_conc_" + cfg]],
+                       env={"C09_REGRESS_DIR": os.path.join(verif.VERIF, "replays", ID), "C09_REGRESS_REPS": 40 if tier == "quick" else 400},
+                       group="regress", timeout=3000))
     return us
 
 
 def _floor(tier):
     b = _budget(tier)
-    return {cfg: int(b[cfg][0] * b[cfg][1] * 0.9) for cfg in b}
+    f = {cfg: int(b[cfg][0] * b[cfg][1] * 0.9) for cfg in b}
+    f["regress"] = 2 * 4 * (40 if tier == "quick" else 400)
+    return f
 
 
 def run(tier, seed):
@@ -57,12 +64,12 @@ def run(tier, seed):
                                        "counter does not hide races)",
                                        "the sequential reference in harness/c09_model.h states the documented cache semantics (C07/C08 rules, far deadlines)",
                                        "ThreadSanitizer models pthread_rwlock/pthread_mutex correctly"],
-                          extra={"schedule_control": "none (OS schedules; noise from the case); failing cases are re-executed up to 150x on replay"},
-                          replay_env={"C09_REPLAY_REPS": 150})
+                          extra={"schedule_control": "none (OS schedules; noise from the case); failing cases are re-executed up to 300x on replay"},
+                          replay_env={"C09_REPLAY_REPS": 300})
 
 
 def replay(path):
-    return verif.standard_replay(specs(), path, replay_env={"C09_REPLAY_REPS": 150})
+    return verif.standard_replay(specs(), path, replay_env={"C09_REPLAY_REPS": 300})
 
 
 # sensitivity mutations (tools/sens.py -w 10 C09)
